@@ -18,7 +18,7 @@ Row(c, day, p, a, rt, note) == [day |-> day, payee |-> p, amt |-> a, rate |-> rt
 Cfgs == {[atype |-> at, cols |-> cols, layout |-> lay, delim |-> dl, skip |-> sk, datefmt |-> df, order |-> ord, balance |-> bal, conv |-> cv, ruleconv |-> rc] :
            at \in {"asset", "liability"}, cols \in {"amount", "creditdebit"}, lay \in {"index", "label", "template"}, dl \in {",", ";"},
            sk \in {0, 2}, df \in {"%Y-%m-%d", "%d.%m.%Y"}, ord \in {"old_to_new", "new_to_old"}, bal \in BOOLEAN,
-           cv \in {"none", "extract_pos", "compute_pos", "extract_pop", "compute_pop", "disabled"}, rc \in {"none", "disabled"}}
+           cv \in {"none", "extract_pos", "compute_pos", "extract_pop", "compute_pop", "disabled"}, rc \in {"none", "disabled", "commodity"}}
 
 \* pairwise-ish reduction for the quick tier: every value of every dimension with the conversion and order dimensions crossed fully
 Reduced(c) == \/ (c.delim = "," /\ c.skip = 0 /\ c.datefmt = "%Y-%m-%d")
@@ -26,11 +26,13 @@ Reduced(c) == \/ (c.delim = "," /\ c.skip = 0 /\ c.datefmt = "%Y-%m-%d")
 
 MCInit ==
   /\ cfg \in {c \in Cfgs : (c.balance => c.atype = "asset") /\ (MaxRows > 2 \/ Reduced(c))
-                             /\ (c.ruleconv = "disabled" => c.conv \in {"extract_pos", "compute_pop"} /\ c.layout = "label")}
+                             /\ (c.ruleconv = "disabled" => c.conv \in {"extract_pos", "compute_pop"} /\ c.layout = "label")
+                             /\ (c.ruleconv = "commodity" => c.conv \in {"extract_pos", "compute_pos", "extract_pop"} /\ c.layout = "index")}
   /\ opening \in {D(0, 0), D(50000, 2)}
   /\ \E n \in 1..MaxRows :
        \E as \in [1..n -> Amounts], rts \in [1..n -> {NoRate, Rate2, RateHalf}] :
          /\ (cfg.conv = "none" => \A k \in 1..n : rts[k] = NoRate)
+         /\ (cfg.ruleconv = "commodity" => \A k \in 1..n : rts[k] # NoRate)      \* a rule's conversion needs a rate on every row it matches
          /\ rows = [k \in 1..n |-> Row(cfg.conv, k, IF k % 2 = 1 THEN "Grocery Shop" ELSE "給料", as[k], rts[k], IF k = 2 THEN "a note" ELSE "")]
 MCNext == UNCHANGED <<cfg, rows, opening>>
 MCSpec == MCInit /\ [][MCNext]_<<cfg, rows, opening>>
